@@ -128,6 +128,16 @@ Theorem C04_loop_fuel_never_exhausted : forall D F CH c st n extra,
   read_loop (sfinal s) (swith s) (cap st2) (ri st2) n (loop_fuel c0) O c0 [] (len (win st2)).
 Proof. exact rinv_loop_fuel_ok. Qed.
 
+(* ---- room: after the allocate/grow phases of acquireSlow the buffer can hold the whole request, so every
+        Read of the loop is offered at least one byte while the request is unsatisfied (an empty read is
+        never the reader's own doing) ---- *)
+Theorem C04_room_for_request : forall D F CH c st n,
+  RInv D F CH c st -> len (win st) < n ->
+  let st2 := grow_phase (alloc_phase st n) n in
+  win st2 = win st /\ ri st2 = ri st /\ ri st2 + n <= cap st2 /\
+  (forall wl, wl < n -> 0 < cap st2 - (ri st2 + wl)).
+Proof. exact rinv_room. Qed.
+
 (* ---- the loop's source cursor is the reference source semantics src_read (DESIGN 4) ---- *)
 Theorem C04_cursor_read_is_src_read : forall s room bs m e c',
   cur_read (sfinal s) (swith s) (cur_of s) room = (bs, m, e, c') ->
